@@ -146,6 +146,23 @@ def egen(pkgs_q, pkgs_t, shards=16, **kw):
     return d
 
 
+def corpus(q, t, shards=16, **kw):
+    d = dict(name="corpus", module="gen", go=GO, test="TestCorpus", shards=shards, gen=True,
+             checks={"quick": q, "thorough": t}, timeout={"quick": 900, "thorough": 14400},
+             shrinktime={"quick": "40s", "thorough": "240s"})
+    d.update(kw)
+    return d
+
+
+CORPUS_RULE = ("; corpus stage (E-CORPUS, metamorphic fuzzing of the programs in /repo/internal/tests): a case = (package, 1-6 semantics-preserving source mutations "
+               "[parenthesised argument, comment before an argument, explicit import name with all uses renamed, directive statement wrapped in a block / for{} / switch{default:}, "
+               "directive call wrapped in a closure, function literal first stored in a local, copy of the enclosing function, rotated option order, equivalent build-constraint header], mode); "
+               "the checked-in outputs are deleted and regenerated by the freshly built cff; oracle: no crash, still accepted, outputs parse / hold no directive / compile without and with the cff tag, "
+               "masked-AST equality and constraint truth tables against the mutated source, only documented paths written, second run byte-identical (C17), source-map == base up to comments (C20), "
+               "and the package's own tests - which pass on the unmutated program - still pass on the regenerated mutated one (3 of 3 runs, baseline re-confirmed; not judged after an option rotation); "
+               "a mutated source that does not type-check under the cff tag is discarded and counted; non-trivial there = at least two mutations applied")
+CORPUS_ASSUME = ["corpus stage: the mutation operators preserve the meaning of the program (they change neither the dataflow graph nor any signature); the corpus tests are deterministic (a failure must reproduce 3 of 3 times while the unmutated package passes in the same environment, otherwise the case is inconclusive)"]
+
 GEN_ASSUME = [
     "inputs are packages rendered from the generator's spec language; an input that does not type-check under the cff tag is discarded and counted, never reported",
     "the freshly built cff binary is run as a separate process (cmd/cff/main.go, go/packages and the real go toolchain are in the loop)",
@@ -177,18 +194,28 @@ PROPS["C20"] = dict(
     assumptions=GEN_ASSUME,
 )
 
+for _p, _q, _t in [("C13", 3, 100), ("C14", 2, 60), ("C16", 2, 60), ("C17", 2, 60), ("C20", 2, 60),
+                   ("C02", 2, 50), ("C04", 1, 30), ("C10", 1, 30), ("C11", 2, 50), ("C15", 1, 30), ("C03", 1, 20)]:
+    PROPS[_p]["stages"].append(corpus(_q, _t))
+    PROPS[_p]["rule"] += CORPUS_RULE
+    PROPS[_p]["assumptions"] = PROPS[_p]["assumptions"] + CORPUS_ASSUME
+
 HOOK_COMMITS = ["661e699"]
 ENGINES = [
     {"name": "E-SCHED-ST", "path": "sched/st_test.go", "serves_properties": ["C01", "C03", "C05", "C06", "C07", "C08", "C09", "C19"],
      "kind_free_text": "rapid + testing/synctest (go1.26.8): real scheduler in a virtual-time bubble, exact deadlock/leak detection"},
     {"name": "E-SCHED-RT", "path": "sched/rt_test.go", "serves_properties": ["C01", "C03", "C05", "C06", "C07", "C08", "C09", "C12", "C19"],
-     "kind_free_text": "rapid, real goroutines and clock on 16 cores; -race flavour for C12; stateful histories for C06"},
+     "kind_free_text": "rapid, real goroutines and clock on 16 cores; -race flavour for C12; stateful histories for C06; thorough tier adds native go test -fuzz (rapid.MakeFuzz) over the same property"},
+    {"name": "E-EMSTACK", "path": "gen/emstack_test.go", "serves_properties": ["C18"],
+     "kind_free_text": "rapid: library-level model of cff.EmitterStack (construction histories incl. aliased slices, event scripts with identifiable arguments)"},
 ]
 ENGINES += [
     {"name": "E-BIN", "path": "gen/ebin_test.go", "serves_properties": ["C01", "C02", "C03", "C04", "C05", "C06", "C07", "C08", "C09", "C10", "C11", "C12", "C13", "C15", "C18", "C20"],
      "kind_free_text": "rapid outer loop: spec -> Go module (go 1.19) -> freshly built cff binary -> go test -c -> inner driver (rapid scenario search, reference interpreters in gen/rt)"},
 ]
 ENGINES += [
+    {"name": "E-CORPUS", "path": "gen/ecorpus_test.go", "serves_properties": ["C02", "C03", "C04", "C10", "C11", "C13", "C14", "C15", "C16", "C17", "C20"],
+     "kind_free_text": "rapid: metamorphic fuzzing of the repository's own cff programs (internal/tests): semantics-preserving source mutations -> freshly built cff -> text oracles + the package's own tests as behavioural oracle"},
     {"name": "E-GEN", "path": "gen/egen_test.go", "serves_properties": ["C13", "C14", "C16", "C17", "C20"],
      "kind_free_text": "rapid: spec -> Go module -> freshly built cff binary (base/source-map, -auto-instrument, -tags, -file) -> text oracles (go/parser, go/build/constraint truth tables, masked AST, sha256 snapshots, reference well-formedness checker) + go build"},
 ]
